@@ -39,13 +39,14 @@ def components(prop):
     return {
         "real": [
             "optimum.quanto tensor code from the working tree: QBytesTensor / QBitsTensor / PackedTensor, both dispatch levels (__torch_function__, __torch_dispatch__), qfallback, quantize_activation / quantize_weight / SymmetricQuantizer / AffineQuantizer, state_dict flatten / unflatten",
-            "torch CPU kernels and dispatcher; copy.deepcopy; torch.nn.Parameter wrapping",
+            "torch CPU kernels and dispatcher (core.pin_torch(): one intra-op thread, oneDNN off); copy.deepcopy; torch.nn.Parameter wrapping",
             "pure-python unpack kernel (library.disable_extensions() is held for the whole run; the C++ kernel is engine K's business)",
         ],
         "stub": [
             "devices: cpu only (to(device) is cpu->cpu, with and without copy=True); no CUDA/MPS kernels, no AWQ tensors",
             "faults are injected exceptions raised from a TorchDispatchMode at the k-th aten call of one step, including the inner kernel calls quanto's own __torch_dispatch__ makes",
             "no autograd: programs run under torch.no_grad()",
+            "calls quanto makes to torch._weight_int8pack_mm with K % 16 != 0 (memory-unsafe in this torch build) are intercepted at the torch attribute and reported as a C05 violation instead of being executed",
         ],
     }
 
@@ -88,8 +89,12 @@ def kernel_guard(probe=lambda name: None):
     pass (torch 2.14, measured in forked children over M,N,K in 1..33 and seven layouts):
       * torch._weight_int8pack_mm unless K % 16 == 0 (segmentation fault or garbage); quanto uses it
         for bfloat16 x int8 linears whenever K % 4 == 0;
-      * torch._int_mm when an operand is a (1, c>1) matrix with strides (1, 1) - what `weights.t()`
-        is for in_features == 1 - or has an expanded (stride 0) dim: garbage, different on every call.
+      * torch._int_mm, with oneDNN enabled (core.pin_torch() turns it off for simulated runs, so this
+        half is a safety net for ad-hoc use), when both operands have a unit stride and one of them, of shape
+        (r, c), has a leading dimension smaller than its extent - strides (s0 < c, 1) or (1, s1 < r):
+        what `weights.t()` is for in_features == 1, what `.view(-1, 1)` of a transposed payload is,
+        what an expanded operand is. Garbage, different on every call (5000 random cases in forked
+        children: the rule is exact in both directions).
     Both are intercepted at the torch attribute quanto looks up (a seam of DESIGN 3.6) and turned into
     an exception, so that a run reports the call instead of dying or turning nondeterministic; inside
     the kernels' sound domain the wrappers are transparent."""
@@ -101,10 +106,15 @@ def kernel_guard(probe=lambda name: None):
         probe("route_weight_int8pack_mm")
         return real_pack(a, b, scales)
 
+    def bad_ld(t):
+        (r, c), (s0, s1) = t.shape, t.stride()
+        return s0 < c if s1 == 1 else (s0 == 1 and s1 < r)
+
     def imm(a, b, *args, **kw):
-        for t in (a, b):
-            if t.dim() == 2 and ((t.shape[0] == 1 and t.shape[1] > 1 and tuple(t.stride()) == (1, 1)) or any(s == 0 and d > 1 for s, d in zip(t.stride(), t.shape))):
-                raise UnsoundKernel("int_mm_row_vector_stride_1_1_or_expanded_operand", f"torch._int_mm called with an operand of shape {tuple(t.shape)} and strides {tuple(t.stride())}")
+        if torch.backends.mkldnn.enabled and a.dim() == 2 and b.dim() == 2 and all(1 in t.stride() for t in (a, b)):
+            for t in (a, b):
+                if bad_ld(t):
+                    raise UnsoundKernel("int_mm_operand_leading_dimension_smaller_than_extent", f"torch._int_mm called with an operand of shape {tuple(t.shape)} and strides {tuple(t.stride())}")
         probe("route_int_mm")
         return real_imm(a, b, *args, **kw)
 
@@ -434,6 +444,9 @@ class World:
     def run(self):
         from optimum.quanto.library import disable_extensions
 
+        from . import core
+
+        core.pin_torch()  # one intra-op thread, oneDNN off: the ambient configuration of every simulated run
         R.ambient_reset()
         with warnings.catch_warnings():
             warnings.simplefilter("ignore")
@@ -450,6 +463,8 @@ class World:
                         self.res["skipped"] += 1
         res = self.res
         res["log_digest"] = self.log.digest()
+        if hasattr(self.log, "behaviour_digest"):  # what the system under test did ("built" / "out" records) as opposed to what was observed about it
+            res["behaviour_digest"] = self.log.behaviour_digest()
         res["trace"] = self.trace[:200]
         res["trace_hash"] = hexdigest(self.trace)
         res["states"] = sorted(self.states)
@@ -480,7 +495,7 @@ class World:
             self.log.add("make_failed", type(e).__name__)
             return "skipped"
         self.put(op["dst"], t, name)
-        self.log.add("made", op["dst"], R.tensor_digest(t))
+        self.log.add("built", op["dst"], R.tensor_digest(t))
         self.code_probes(t)
         self.check_pool(name, i, {op["dst"]}, False)
         return "ok:" + opclass(t).split("/")[0]
@@ -571,7 +586,7 @@ class World:
             self.check_pool(fn, i, set(), False)
             return outcome
         G = as_list(got)
-        self.log.add("result", [R.tensor_digest(g) if isinstance(g, torch.Tensor) else repr(g) for g in G])
+        self.log.add("out", [R.tensor_digest(g) if isinstance(g, torch.Tensor) else repr(g) for g in G])
         if qany and self.prop == "C05":
             self.res["judged"] += 1
             self.judge_values(fn, op, cls, xs, fx, aux, as_list(exp), G, i)
@@ -697,7 +712,9 @@ class World:
             if is_qbytes(g) and g._data.numel():
                 codes = g._data.to(torch.float64).abs().nan_to_num(0, 0, 0)
                 codes = codes if tuple(codes.shape) == tuple(e64.shape) else codes.max().item()
-            tol = 2 * eps * torch.maximum(e64.abs(), g64.abs()) + (codes + 1) * tiny
+            # ... and the float program rounds scale*code before multiplying / dividing by s
+            sv = abs(float(op["s"]["v"])) if "s" in op else 1.0
+            tol = 2 * eps * torch.maximum(e64.abs(), g64.abs()) + (codes + max(sv, 1.0 / sv if sv else 1.0, 1.0) + 1) * tiny
             return finite & ~(err <= tol), f" (tolerance {2}*eps({eps:g}) relative)"
         if c == "step":
             qt, s = g.qtype, g._scale.to(torch.float64).abs()
@@ -743,6 +760,8 @@ class World:
             return "weight_scale_along_axis-1"
         if fn in ("linear", "mm", "bmm", "matmul") and is_qbytes(x) and x.axis is not None:
             return "per_axis_input"
+        if fn in ("mm", "bmm", "matmul") and is_qbytes(xs[1]) and xs[1].axis == 0 and xs[1].dim() == 2:
+            return "right_operand_scale_along_contraction"
         nonfinite = bool((~torch.isfinite(gd.to(torch.float64)) & torch.isfinite(e.to(torch.float64)) & wrong).any())
         if any(R.is_q(t) and bool((t._scale == 0).any()) for t in xs):
             return "zero_scale"
